@@ -494,7 +494,7 @@ def build_stream(qid, rows, phases, T=300., P=101325.):
 
 
 def apply_and_judge(ctx, site, region, rxn, ref, basis, pid, feed, tgt, phases=(), qid=None,
-                    stream_phase='l', T=300., P=101325., rtol=1e-12, check_conservation=True):
+                    stream_phase='l', T=300., P=101325., rtol=1e-12, check_conservation=True, coef_tol=0.0):
     """Apply the real object ``rxn`` (defined on package ``pid``, reference model ``ref`` in ``basis``)
     to a fresh target holding ``feed`` (dense, P order; 1-d for phase-less reactions, phases x N
     otherwise) and compare with the NumPy reference.  Returns the outcome dict."""
@@ -562,6 +562,10 @@ def apply_and_judge(ctx, site, region, rxn, ref, basis, pid, feed, tgt, phases=(
     # [s_lo, s_hi] and only outcomes outside that interval are judged.
     neg = float(feas_out[feas_out < 0].sum()) if (feas_out < 0).any() else 0.0
     delta = np.where(feas_out != feas_in, 1e-14 * mag, 0.0)
+    if coef_tol:
+        # the reaction object itself is only known up to ``coef_tol`` per stoichiometric coefficient (results of
+        # cancelling arithmetic such as (a+b)-b): any entry may be off by coef_tol * (amount of reactant converted)
+        delta = delta + coef_tol * sum(abs(lf.X * feas_in[lf.idx]) for lf in ref.leaves())
     s_lo = float(np.minimum(feas_out - delta, 0.0).sum())
     s_hi = float(np.minimum(feas_out + delta, 0.0).sum())
     out = {'raised': raised, 'feas_out': feas_out, 'cmp_out': cmp_out, 'cmp_in': cmp_in, 'stream': stream}
